@@ -10,14 +10,14 @@ prop(
     "received data with FINAL_SIZE_ERROR (with legal controls). Implicit open: random legal frame sequences with arbitrary indices, accept must yield exactly prev..=k, once, in order. "
     "Local opens: ids in order and below the granted count, blocked otherwise, lower/equal MAX_STREAMS ignored. Originated MAX_STREAMS never decrease under any STREAMS_BLOCKED sequence. "
     "Honest leg: the two-endpoint harness of C01 with stream counts {0,1,2,10,100}, open-heavy histories: opened ids < granted-at-that-moment (MAX_STREAMS applied at delivery), in order; accepted streams "
-    "in index order and, at the end, exactly up to the highest index any accepted frame referred to. Whole-stack leg (l2-inject): 17 frames injected through hook H3 into the 1-RTT packets of an honest peer of a real dquic connection (stream index far beyond / first beyond / exactly last allowed, STREAM / RESET_STREAM on the victim's send-only stream, STOP_SENDING / MAX_STREAM_DATA on receive-only or never-opened local streams, data beyond a known final size, a second FIN at another offset, RESET_STREAM below received data, MAX_STREAMS / STREAMS_BLOCKED above 2^60, at client and at server): the victim must close with STREAM_LIMIT_ERROR / STREAM_STATE_ERROR / FINAL_SIZE_ERROR, respectively stay open for the legal one.",
+    "in index order and, at the end, exactly up to the highest index any accepted frame referred to. Whole-stack leg (l2-inject): 20 frames injected through hook H3 into the 1-RTT packets of an honest peer of a real dquic connection (stream index far beyond / first beyond / exactly last allowed, STREAM / RESET_STREAM on the victim's send-only stream, STOP_SENDING / MAX_STREAM_DATA on receive-only or never-opened local streams, data beyond a known final size, a second FIN at another offset, RESET_STREAM below received data, MAX_STREAMS / STREAMS_BLOCKED above 2^60, at client and at server): the victim must close with STREAM_LIMIT_ERROR / STREAM_STATE_ERROR / FINAL_SIZE_ERROR, respectively stay open for the legal one.",
     level_note="Known finding C12.limit.accept-index-equals-max is pinned by the repository's own unit test. FINAL_SIZE checks are demanded while the receiver still holds the stream (Recv / SizeKnown), "
     "not after it was fully received and released (RFC 9000 §4.5: not mandatory for closed streams). Frames for a local stream that was never opened are only counted (not in the property statement).",
     design_ref="DESIGN.md §3 C12",
     legs=[dict(name="streams", crate="l1rec", sub="c12", shards={Q: 16, T: 16}, budget={Q: 1500, T: 60000}, timeout=1800),
           dict(name="l2-inject", crate="l2", sub="c04", args=["--prop", "C12"], shards={Q: 4, T: 4}, timeout=900)],
     floors={Q: {
-            "probes_delivered": 17,
+            "probes_delivered": 20,
 "hostile_refused_StreamLimit": 900, "hostile_refused_StreamState": 30, "hostile_refused_FinalSize": 80, "legal_frames_accepted": 300, "implicit_open_histories_exact": 5000,
                 "local_open_histories_conform": 60, "max_streams_originated_checked": 40, "ledger_opens_checked": 100_000, "open_blocked": 50_000, "ledger_max_streams_delivered": 50_000,
                 "accepts": 100_000, "distinct": 10_000}},
